@@ -13,3 +13,5 @@ import FpVerif.Properties.C17
 import FpVerif.Properties.C06
 import FpVerif.Properties.C07
 import FpVerif.Properties.C14
+import FpVerif.Properties.C12
+import FpVerif.Properties.C20
